@@ -16,11 +16,11 @@ Definition api (ask : string -> list val -> val) : list api_entry :=
   let vp := fun (curve : N) b => o_bool ask "valid_pub_text" [VN curve; VB b] in
   let crc16 := fun b => o_bytes ask "crc16_xmodem" [VB b] in
   [
-  ("algo_decode", fun a => match a with [VB s] => rb (AddrText.algo_decode sha512_256 vp b32_dec s) | _ => bad_call end);
-  ("xlm_decode", fun a => match a with [VN ty; VB s] => rb (AddrText.xlm_decode vp crc16 b32_dec ty s) | _ => bad_call end);
-  ("fil_decode", fun a => match a with [VB s] => rb (AddrText.fil_decode b2b b32_dec s) | _ => bad_call end);
-  ("nano_decode", fun a => match a with [VB s] => rb (AddrText.nano_decode b2b vp b32_dec s) | _ => bad_call end);
-  ("nim_decode", fun a => match a with [VB s] => rb (AddrText.nim_decode b32_dec s) | _ => bad_call end);
-  ("substrate_decode", fun a => match a with [VN curve; VN fmt; VB s] =>
+  ("algo_addr_decode", fun a => match a with [VB s] => rb (AddrText.algo_decode sha512_256 vp b32_dec s) | _ => bad_call end);
+  ("xlm_addr_decode", fun a => match a with [VN ty; VB s] => rb (AddrText.xlm_decode vp crc16 b32_dec ty s) | _ => bad_call end);
+  ("fil_addr_decode", fun a => match a with [VB s] => rb (AddrText.fil_decode b2b b32_dec s) | _ => bad_call end);
+  ("nano_addr_decode", fun a => match a with [VB s] => rb (AddrText.nano_decode b2b vp b32_dec s) | _ => bad_call end);
+  ("nim_addr_decode", fun a => match a with [VB s] => rb (AddrText.nim_decode b32_dec s) | _ => bad_call end);
+  ("substrate_addr_decode", fun a => match a with [VN curve; VN fmt; VB s] =>
       rb (AddrText.substrate_decode vp (Codecs.ss58_decode blake512) curve fmt s) | _ => bad_call end)
   ].
